@@ -29,6 +29,11 @@ CHECKS = {
          "Leg 1: full shadow family (34 qualified + 20 builtin subjects x 5 declaration kinds x 29 signatures x argument shapes x 27 contexts), go/types guarantees the subject identifier is a user declaration; each program with diagnostics is re-analysed with the declaration renamed to a same-length neutral identifier. Leg 2: every (example file, std import used only through functions): the import is replaced by a package-level variable with identical function signatures (so rule-based checkers see the same call shapes), plus neutral twin; a diagnostic present in original and namesake variant but absent in the neutral twin is API-specific and wrongly issued.",
          "Checkers whose documented subject is shadowing itself (builtinShadow, builtinShadowDecl, importShadow) are exempt. Known findings are keyed checker|subject.",
          "DESIGN.md section 3, C20"),
+ "C03": ("model_checking",
+         "explicit-state exploration of visit histories on real long-lived checker sets: all sequences up to a depth from the initial state, Eulerian tour over all ordered pairs of example files, all argument orders/groupings on the real binary; differential oracle = fresh instance",
+         "States are histories of (package,file) visits executed on real checker sets built like initCheckers does. All sequences of length <=3 (hand-written checkers; <=4 thorough) and <=2 (rule-based; <=3 thorough) over a 21-file alphabet chosen from the files that exercise per-checker scratch state, each from a fresh set; an Eulerian tour of the complete digraph over the example files on one long-lived full set (every ordered pair as consecutive visits, long histories); every permutation and consecutive grouping of three package arguments x concurrency on the real binary. In every state the output for the last file must equal that of a fresh set on the file alone.",
+         "No state abstraction or pruning is used (histories are not merged), so nothing is hidden by an incomplete fingerprint; the alphabet bounds what scratch state can be reached.",
+         "DESIGN.md section 3, C03"),
 }
 
 PENDING = {
